@@ -8,11 +8,11 @@ Proof. reflexivity. Qed.
 
 (* a credential whose key holds no access record and no active refresh record is reported inactive *)
 Lemma key_dead_inactive cfg s i e tampered h scopes :
-  nth_error (log s) i = Some e -> access (st s) (i_key e) = None -> rt_dead (st s) (i_key e) ->
+  nth_error (log s) i = Some e -> access (st s) (i_key e) = None -> implicit (st s) (i_key e) = None -> rt_dead (st s) (i_key e) ->
   introspect cfg s {| p_ref := CRef i; p_tampered := tampered |} h scopes = None.
 Proof.
-  intros Hn Ha Hr. unfold introspect, key_of. cbn [p_ref p_tampered]. rewrite Hn. cbn [option_map].
-  unfold introspect_access, introspect_refresh. cbn [find]. rewrite Ha.
+  intros Hn Ha Hi Hr. unfold introspect, key_of. cbn [p_ref p_tampered]. rewrite Hn. cbn [option_map].
+  unfold introspect_access, introspect_refresh, lookup_access. cbn [find]. rewrite Ha, Hi.
   destruct Hr as [->|[r ->]]; destruct (negb (cf_introspect_rt cfg)); try reflexivity; destruct h; reflexivity.
 Qed.
 
@@ -116,14 +116,14 @@ Theorem rotation_retires_old_pair cfg cls h1 auth tok h2 :
   o_err (snd res1) = "" ->
   exists k r, key_of s1 tok = Some k /\ refresh (st s1) k = Some (true, r) /\
   forall i e tampered hint scopes,
-    nth_error (log s1) i = Some e -> i_rid e = r_id r ->
+    nth_error (log s1) i = Some e -> i_rid e = r_id r -> i_kind e <> KImplicit ->
     introspect cfg (run cfg (fst res1) h2) {| p_ref := CRef i; p_tampered := tampered |} hint scopes = None.
 Proof.
   intros s1 res1 Hok.
   assert (I1 : Inv s1) by apply Inv_reachable.
   destruct (refresh_ok_rotates cfg s1 auth tok I1 Hok) as [k [r [Hk [Hact [Hm [Hd Hall]]]]]].
   exists k, r. split; [exact Hk|]. split; [exact Hact|].
-  intros i e tampered hint scopes Hn Hrid.
+  intros i e tampered hint scopes Hn Hrid Hkind.
   assert (He : In e (log s1)) by (eapply nth_error_In; eassumption).
   destruct (Hall e He Hrid) as [Ha Hr].
   assert (Hlt : i_key e < next_key (fst res1)).
@@ -136,8 +136,13 @@ Proof.
     destruct (log_step_prefix cfg s1 (ORefresh auth tok [])) as [l ->].
     rewrite nth_error_app1; [assumption|]. apply nth_error_Some. congruence. }
   destruct Hlog as [j [Hj ->]].
-  eapply key_dead_inactive; [exact Hj| |].
+  assert (I2 : Inv (run cfg (fst res1) h2)).
+  { apply Inv_run. unfold res1. rewrite (refresh_is_step _ _ _ _ []). now apply Inv_step. }
+  eapply key_dead_inactive; [exact Hj| | |].
   - eapply decay_access_gone; eauto.
+  - destruct (implicit (st (run cfg (fst res1) h2)) (i_key e)) as [ri|] eqn:Ei; [|reflexivity].
+    exfalso. pose proof (inv_owner_implicit _ I2 _ _ Ei) as Ho1.
+    pose proof (inv_log_owner _ I2 e (nth_error_In _ _ Hj)) as Ho2. rewrite Ho1 in Ho2. congruence.
   - eapply decay_rt_dead; eauto.
 Qed.
 
@@ -148,20 +153,20 @@ Theorem reuse_kills_family cfg cls h1 c cl tok k r h2 i e tampered hint scopes :
   let res := refresh_flow cfg s1 (Some c) tok in
   o_err (snd res) = "invalid_grant" /\ o_minted (snd res) = [] /\
   (let s2 := run cfg (fst res) h2 in
-   nth_error (log s2) i = Some e -> i_rid e = r_id r ->
+   nth_error (log s2) i = Some e -> i_rid e = r_id r -> i_kind e <> KImplicit ->
    introspect cfg s2 {| p_ref := CRef i; p_tampered := tampered |} hint scopes = None).
 Proof.
   intros s1 Hc Hg Hk Hr res.
   assert (I1 : Inv s1) by apply Inv_reachable.
   destruct (reuse_kills cfg s1 c cl tok k r I1 Hc Hg Hk Hr) as [He [Hm Hd]].
   split; [exact He|split; [exact Hm|]].
-  intros s2 Hn Hrid.
+  intros s2 Hn Hrid Hkind.
   assert (I2 : Inv (fst res)).
   { unfold res. rewrite (refresh_is_step _ _ _ _ []). now apply Inv_step. }
   assert (Hlt : r_id r < next_rid (fst res)).
   { pose proof (next_rid_step cfg s1 (ORefresh (Some c) tok [])) as Hm'.
     cbn [step] in Hm'. pose proof (proj2 (inv_refresh_fresh s1 _ _ _ I1 Hr)). unfold res. lia. }
-  eapply dead_credential_inactive; [apply Inv_run; exact I2|apply dead_run; [exact Hd|exact Hlt]|exact Hn|exact Hrid].
+  eapply dead_credential_inactive; [apply Inv_run; exact I2|apply dead_run; [exact Hd|exact Hlt]|exact Hn|exact Hrid|exact Hkind].
 Qed.
 
 Theorem reuse_spares_other_grants cfg cls h1 c cl tok k r i e tampered hint scopes :
@@ -185,14 +190,15 @@ Proof.
   destruct (revoke_refresh_tables (delete_refresh (st s1) k) (r_id r)) as [_ [Ta _]].
   assert (Hkne : i_key e <> k).
   { intros Heq. pose proof (inv_owner_refresh s1 I _ _ _ Hr) as Ho'. rewrite <- Heq, Ho in Ho'. congruence. }
-  split.
-  - transitivity (access (fst (revoke_refresh (delete_refresh (st s1) k) (r_id r))) (i_key e)).
-    + apply (revoke_access_frame (set_store (set_store s1 (delete_refresh (st s1) k)) (fst (revoke_refresh (delete_refresh (st s1) k) (r_id r)))) (r_id r) (i_key e) I2).
-      cbn. rewrite Ho. congruence.
-    + rewrite Ta. reflexivity.
-  - rewrite Tr.
-    transitivity (refresh (delete_refresh (st s1) k) (i_key e)).
-    + apply (revoke_refresh_frame (set_store s1 (delete_refresh (st s1) k)) (r_id r) (i_key e) I1).
-      cbn. rewrite Ho. congruence.
-    + cbn. now rewrite upd_neq.
+  assert (Hno : forall kd, owner s1 (i_key e) <> Some (kd, r_id r)) by (intros kd; rewrite Ho; congruence).
+  assert (Ti : forall x X, implicit (fst (revoke_refresh x X)) = implicit x).
+  { intros x X. unfold revoke_refresh. destruct (rt_idx x X) as [k1|]; [destruct (refresh x k1) as [[? ?]|]|]; reflexivity. }
+  destruct (revoke_access_frame (set_store (set_store s1 (delete_refresh (st s1) k)) (fst (revoke_refresh (delete_refresh (st s1) k) (r_id r)))) (r_id r) (i_key e) I2 Hno) as [Fa Fi].
+  cbn in Fa, Fi.
+  split; [rewrite Fa, Ta; reflexivity|]. split; [rewrite Fi, Ti; reflexivity|].
+  rewrite Tr.
+  transitivity (refresh (delete_refresh (st s1) k) (i_key e)).
+  - apply (revoke_refresh_frame (set_store s1 (delete_refresh (st s1) k)) (r_id r) (i_key e) I1).
+    cbn. rewrite Ho. congruence.
+  - cbn. now rewrite upd_neq.
 Qed.
